@@ -71,7 +71,7 @@ theorem cnt_crash {s : State} (h : Cnt s) (w : String) : Cnt (s.crash w) := by
 
 theorem cnt_count {cfg : Cfg} {s : State} (h : Cnt s) (t : Int) : Cnt (countMsg cfg s t) := by
   unfold countMsg; split
-  · exact h
+  · exact cnt_misc h _ rfl rfl rfl
   · exact cnt_misc h _ rfl rfl rfl
 
 /-- a successful write: the next count, stamped and recorded -/
